@@ -49,6 +49,9 @@ type Program struct {
 	Recovery bool `json:"recovery,omitempty"`
 	// ViaGroup: the router is made by Group.New (matcher nil) and every request enters through Group.ServeHTTP
 	ViaGroup bool `json:"via_group,omitempty"`
+	// Mass > 0: that many further never-touched literal routes (/mass/<i>) are registered before the goroutines start:
+	// listings, indexes and counters of a size beyond the usual
+	Mass int `json:"mass,omitempty"`
 }
 
 type upat struct {
@@ -123,6 +126,9 @@ func gen(t *rapid.T) Program {
 	p.Trace = rapid.Bool().Draw(t, "trace")
 	p.Recovery = rapid.IntRange(0, 2).Draw(t, "recovery") == 0
 	p.ViaGroup = rapid.IntRange(0, 3).Draw(t, "viaGroup") == 0
+	if rapid.IntRange(0, 5).Draw(t, "mass") == 0 {
+		p.Mass = rapid.SampledFrom([]int{101, 130, 260, 520}).Draw(t, "massN")
+	}
 	p.Pre = rapid.SliceOfNDistinct(rapid.IntRange(0, len(toggled)-1), 0, 10, rapid.ID[int]).Draw(t, "pre")
 	nw := rapid.IntRange(1, 4).Draw(t, "nwriters")
 	nr := rapid.IntRange(1, 6).Draw(t, "nreaders")
@@ -134,6 +140,7 @@ func gen(t *rapid.T) Program {
 	if mini {
 		p.Rounds = rapid.SampledFrom([]int{100, 300, 600}).Draw(t, "rounds")
 		p.Pre = nil
+		p.Mass = 0 // every round builds a fresh router
 		nr = rapid.IntRange(0, 2).Draw(t, "miniReaders")
 	}
 	if mini || rapid.IntRange(0, 2).Draw(t, "duel") == 0 {
@@ -200,6 +207,11 @@ func gen(t *rapid.T) Program {
 		}
 		for i, n := 0, rlen; i < n; i++ {
 			op := ROp{Yield: rapid.IntRange(0, 3).Draw(t, "ry") == 0}
+			if p.Mass > 0 && i == 0 {
+				// with a table of unusual size every reader opens with a listing: they all start at once
+				ops = append(ops, ROp{Kind: "routes"})
+				continue
+			}
 			switch k := rapid.IntRange(0, 9).Draw(t, "rk"); {
 			case k < 4:
 				op.Kind = "untouched"
@@ -209,7 +221,7 @@ func gen(t *rapid.T) Program {
 				op.Kind = "toggled"
 				op.P = rapid.IntRange(0, len(toggled)-1).Draw(t, "rtp")
 				op.M = rapid.SampledFrom([]string{"GET", "POST", "OPTIONS", "DELETE"}).Draw(t, "rtm")
-			case k < 8:
+			case k < 8 || (p.Mass > 0 && k < 9):
 				op.Kind = "routes"
 				if p.Recovery && rapid.Bool().Draw(t, "rpanic") {
 					op.Kind = "panic"
@@ -302,6 +314,11 @@ func runProgram(p Program) (map[string]float64, *rig.Violation) {
 	for _, tg := range toggled {
 		parsed[tg.pattern] = pat.MustParse(tg.pattern, nil)
 		all[tg.pattern] = true
+	}
+	for i := 0; i < p.Mass; i++ {
+		mp := fmt.Sprintf("/mass/%d", i)
+		r.Handle(mp, newH(mp), nil, "GET")
+		all[mp] = true
 	}
 	if p.Recovery {
 		parsed[boom.pattern] = pat.MustParse(boom.pattern, nil)
@@ -485,6 +502,11 @@ func runProgram(p Program) (map[string]float64, *rig.Violation) {
 					for _, u := range untouched {
 						if !rig.EqualSets(routes[u.pattern], allow(u.methods)) {
 							fail(rig.Violf("routes-untouched", "%s: Routes()[%q]=%v, want %v", where, u.pattern, routes[u.pattern], allow(u.methods)))
+						}
+					}
+					for i := 0; i < p.Mass; i += 37 {
+						if mp := fmt.Sprintf("/mass/%d", i); !rig.EqualSets(routes[mp], allow([]string{"GET"})) {
+							fail(rig.Violf("routes-untouched", "%s: Routes()[%q]=%v, want %v", where, mp, routes[mp], allow([]string{"GET"})))
 						}
 					}
 				case "url":
